@@ -205,7 +205,7 @@ func (c *collector) row(vals []interface{}) bool {
 			c.res.Rows = append(c.res.Rows, encVals(cp))
 		}
 	}
-	if c.req.Nested != nil && c.calls == c.req.NestedAt && c.h != nil {
+	if c.req.Nested != nil && c.calls == c.req.NestedAt && c.h != nil && c.req.Nested.Op != "scan_eq" {
 		ne := nestedCall(c.h, c.req.Nested)
 		c.res.Extra = map[string]interface{}{"nested_err": ne}
 	}
@@ -354,7 +354,18 @@ func runOp(h *handle, r *opReq) (res opRes) {
 			if err != nil {
 				return err
 			}
-			cb := func(rec sdb.Record) bool { return c.row(rec) }
+			cb := func(rec sdb.Record) bool {
+				done := c.row(rec)
+				if r.Nested != nil && r.Nested.Op == "scan_eq" && c.calls == r.NestedAt {
+					// an inner equality scan on the SAME *Index object, from inside the outer scan's callback (the low
+					// level API: the caller holds the lock itself); the inner scan stops after Nested.Stop rows
+					if k, err := toKey(r.Nested.DbKey); err == nil {
+						n := 0
+						ix.ScanEq(k, func(sdb.Record) bool { n++; return r.Nested.Stop > 0 && n >= r.Nested.Stop })
+					}
+				}
+				return done
+			}
 			switch r.Op {
 			case "index_scan":
 				return ix.Scan(cb)
